@@ -622,4 +622,25 @@ example : Gen.rrsParseRule {} (lit "FREQ=DAILY;FOO=1") = .error .ValueError := b
     that one-line method — a cache, a changed default, a dropped keyword — makes the translation fail or this obligation break) -/
 theorem gen_call_eq_model (s : List Char) (o : Opts) (kw : Bool) : Gen.rrsCall s o kw = parseRfc s o kw := rfl
 
+/-- **the WHOLE of `_parse_date_value` as translated from source** (`Gen.rrsParseDateValue`: the parameter loop, then for every
+    `,`-separated value `parser.parse` — a given function, C02 — with OverflowError turned into ValueError, the attach statement, the
+    append): ValueError exactly when `dateParmsOk` fails, otherwise every value parsed and given the zone `<lookup>(resolveTzid …)` -/
+theorem gen_parse_date_value_eq_model {D : Type} (parse : List Char → Py.R (D × Option StrPy.Zone)) (value : List Char)
+    (parms : List (List Char)) (t : StrPy.Dict) (k : StrPy.TzidsKind) (lk : StrPy.Lookup) (hk : lookupOf k = some lk) :
+    Gen.rrsParseDateValue parse value parms t k =
+      match dateParmsOk parms with
+      | .error _ => .error .ValueError
+      | .ok _ => (splitOnChar ',' value).mapM (fun d =>
+          (match parse d with | .error .OverflowError => .error .ValueError | r => r) >>= fun date =>
+          (Gen.rrsAttach ((resolveTzid t parms).map (StrPy.Zone.looked lk)) date.2) >>= fun z => .ok (date.1, z)) :=
+  gen_parseDateValue_eq parse value parms t k lk hk
+
+/-- for values `parser.parse` reads as naive datetimes (`date_text_read_back`: the texts `__str__` prints), every value of the line gets the
+    zone of the line's TZID parameter, none without one — what the model's `stepLine` records as `(value, parms)` and `tzidOf` resolves -/
+theorem gen_parse_date_value_naive {D : Type} (f : List Char → D) (value : List Char) (parms : List (List Char))
+    (t : StrPy.Dict) (k : StrPy.TzidsKind) (lk : StrPy.Lookup) (hk : lookupOf k = some lk) (hp : dateParmsOk parms = .ok ()) :
+    Gen.rrsParseDateValue (fun d => .ok (f d, none)) value parms t k =
+      .ok ((splitOnChar ',' value).map (fun d => (f d, (resolveTzid t parms).map (StrPy.Zone.looked lk)))) :=
+  gen_parseDateValue_naive f value parms t k lk hk hp
+
 end C13
